@@ -74,6 +74,14 @@ def own_energy_unrestricted(mol, g1, g2, full=False):
     return float(np.real(val))
 
 
+def iterative_solver_converged(sol):
+    """False only if the backend coupled-cluster object reports that its amplitude (or lambda) iterations did not converge."""
+    cc = getattr(getattr(sol, "solver", None), "cc_fragment", None)
+    if cc is None:
+        return True
+    return bool(getattr(cc, "converged", True)) and bool(getattr(cc, "converged_lambda", True))
+
+
 def build(spec, ctx):
     try:
         with warnings.catch_warnings():
@@ -113,6 +121,10 @@ def run_classical(case, ctx):
                 g1, g2 = sol.get_rdm()
         except (NotImplementedError,) as ex:
             ctx.note(f"{name}_not_offered")
+            continue
+        if not iterative_solver_converged(sol):
+            # an unconverged amplitude iteration (stretched bonds) has no "solver's energy" the density matrices could reproduce
+            ctx.note(f"{name}_iterations_not_converged_skipped")
             continue
         if n_el < 2 and name != "FCI":
             continue
@@ -276,6 +288,9 @@ def run_pad(case, ctx):
         sol = CCSDSolver(mol) if (uhf or pr.random() < 0.5) else FCISolver(mol)
         e = sol.simulate()
         g1, g2 = sol.get_rdm()
+    if not iterative_solver_converged(sol):
+        ctx.note("CCSD_iterations_not_converged_skipped")
+        return
     n_total = mol.n_electrons
     if uhf:
         g1 = tuple(np.array(x) for x in g1)
